@@ -2,6 +2,7 @@ package c11
 
 import (
 	"fmt"
+	"os"
 	"sort"
 	"strings"
 	"time"
@@ -24,15 +25,17 @@ var (
 	pKiB4   = hs.Mk("kib4", hs.Det(1112, 4096), "")
 	// two age STREAM chunks (chunk size 64 KiB)
 	pTwoChunk = hs.Mk("twochunk", hs.Det(1113, 64<<10+100), "")
-	// a ref whose hash perkeep has no implementation for: receive must fail cleanly
-	pBadHash = hs.Mk("sha256", []byte("c11 plaintext offered under a sha256 ref"), "sha256")
+	pSha256   = hs.Mk("sha256", []byte("c11 plaintext kept under a SHA-256 ref"), "sha256")
+	// a ref whose hash perkeep has no implementation for (offered through the
+	// storage's own ReceiveBlob; blobserver.Receive rejects such refs itself)
+	pBadHash = hs.Blob{Name: "badhash", Ref: blob.MustParse("c11hash-0123456789abcdef0123"), Data: []byte("c11 plaintext offered under a ref with an unknown hash name")}
 )
 
 func tamperUniverse() []hs.Blob {
 	if vk.Thorough() {
-		return []hs.Blob{pSmall, pSchema, pSha1, pEmpty, pKiB4, pTwoChunk}
+		return []hs.Blob{pSmall, pSchema, pSha1, pSha256, pEmpty, pKiB4, pTwoChunk}
 	}
-	return []hs.Blob{pSmall, pSchema, pSha1, pKiB2}
+	return []hs.Blob{pSha1, pSchema, pKiB2}
 }
 
 // --- tamper world ---------------------------------------------------------
@@ -54,6 +57,11 @@ type tamperWorld struct {
 	pristine [2]map[blob.Ref][]byte
 	scan     *leakScanner
 	noScan   map[int]bool // plaintexts excluded from the leak scan (craft)
+	skip     func(tcase) bool
+	racy     func(tcase) bool // outcome (never the verdict) may depend on goroutine order
+	baseLeak *leak
+	modes    []string // default: live and restart
+	skipped  int
 }
 
 // storeAll receives the plaintexts one by one and finds, for each, the
@@ -114,7 +122,12 @@ func (tw *tamperWorld) finish() error {
 	}
 	var err error
 	tw.scan, err = newLeakScanner(scanned)
-	return err
+	if err != nil {
+		return err
+	}
+	// the untampered state itself
+	tw.baseLeak = tw.scan.scanWorld(tw.w)
+	return nil
 }
 
 func (tw *tamperWorld) restore() {
@@ -297,6 +310,11 @@ func (tw *tamperWorld) runCase(c tcase) (res caseResult) {
 		}
 	}
 	sort.Strings(others)
+	if tw.racy != nil && tw.racy(c) {
+		// every fetch was "ok" or an error; which of the two depends on the scan order
+		res.Outcome = fmt.Sprintf("%s/%s/order-dependent:each-fetch-ok-or-error", kn, c.Mode)
+		return
+	}
 	res.Outcome = fmt.Sprintf("%s/%s/own=%s/others-failing=%s", kn, c.Mode, strings.Join(own, ","), strings.Join(dedup(others), ","))
 	return
 }
@@ -317,11 +335,19 @@ func unwrapCtor(err error) error { return err }
 // positions returns the byte positions of target t that get the per-bit flip
 // treatment, and whether that is every position.
 func flipPositions(t target) (pos []int, all bool) {
-	n := len(t.Data)
-	limit := 4500
+	stride := 61
+	if !vk.Thorough() {
+		stride = 16
+	}
+	limit := 20000
 	if !vk.Thorough() {
 		limit = 1200
 	}
+	return interestingPositions(t, stride, limit)
+}
+
+func interestingPositions(t target, stride, limit int) (pos []int, all bool) {
+	n := len(t.Data)
 	if n <= limit {
 		for i := 0; i < n; i++ {
 			pos = append(pos, i)
@@ -340,10 +366,6 @@ func flipPositions(t target) (pos []int, all bool) {
 	}
 	add(0, 384)
 	add(n-96, n)
-	stride := 61
-	if !vk.Thorough() {
-		stride = 16
-	}
 	for i := 0; i < n; i += stride {
 		keep[i] = true
 	}
@@ -385,7 +407,15 @@ func (tw *tamperWorld) enumerate(fn func(k int, c tcase) bool) (bound string) {
 			return
 		}
 		c.Family = tw.family
-		for _, mode := range []string{"live", "restart"} {
+		if tw.skip != nil && tw.skip(c) {
+			tw.skipped++
+			return
+		}
+		modes := tw.modes
+		if modes == nil {
+			modes = []string{"live", "restart"}
+		}
+		for _, mode := range modes {
 			c.Mode = mode
 			if !fn(k, c) {
 				stop = true
@@ -413,7 +443,7 @@ func (tw *tamperWorld) enumerate(fn func(k int, c tcase) bool) (bound string) {
 		emit(tcase{Kind: "delete", T: t})
 	}
 	if tw.family == "craft" {
-		return fmt.Sprintf("%d stored blobs (ciphertext+meta of %d plaintexts): no tampering, every ordered content-for-name swap, every exchange, every deletion; x {live, restart}", nt, len(tw.plain))
+		return fmt.Sprintf("%d stored blobs (ciphertext+meta of the plaintexts victim, other, crafted=meta-shaped text naming victim's ref and other's ciphertext): no tampering, every ordered content-for-name swap, every exchange, every deletion, x {live, restart}; 4 of the swaps put the crafted blob's ciphertext into the meta store beside the victim's genuine meta blob: which row wins depends on the start-up scan's goroutine order, both must satisfy the oracle", nt)
 	}
 	exts := [][]byte{{0x00}, {0x0a}, {0x41}, {0xff}}
 	for _, a := range []byte{0x00, 0x0a, 0x41, 0xff} {
@@ -431,19 +461,22 @@ func (tw *tamperWorld) enumerate(fn func(k int, c tcase) bool) (bound string) {
 		}
 	}
 	for t := 0; t < nt; t++ {
-		n := len(tw.targets[t].Data)
-		// every truncation length (thorough: also of the two-chunk blob)
-		step := 1
-		if n > 4500 && !vk.Thorough() {
-			step = 7
+		// every truncation length (large ciphertext: the same position set as for flips, denser stride)
+		tl := 4500
+		if vk.Thorough() {
+			tl = 20000
 		}
-		for l := 0; l < n; l += step {
+		lens, all := interestingPositions(tw.targets[t], 13, tl)
+		if !all && !(tw.skip != nil && tw.skip(tcase{Kind: "trunc", T: t})) {
+			notes = append(notes, fmt.Sprintf("%s of %s: truncation to %d of %d lengths", tw.targets[t].Role, tw.plain[tw.targets[t].Plain].Name, len(lens), len(tw.targets[t].Data)))
+		}
+		for _, l := range lens {
 			emit(tcase{Kind: "trunc", T: t, Pos: l})
 		}
 	}
 	for t := 0; t < nt; t++ {
 		pos, all := flipPositions(tw.targets[t])
-		if !all {
+		if !all && !(tw.skip != nil && tw.skip(tcase{Kind: "flip", T: t})) {
 			notes = append(notes, fmt.Sprintf("%s of %s (%d bytes): bit flips at %d positions (header+first 384, last 96, +-128 around chunk boundaries, stride)", tw.targets[t].Role, tw.plain[tw.targets[t].Plain].Name, len(tw.targets[t].Data), len(pos)))
 		}
 		for _, p := range pos {
@@ -452,7 +485,7 @@ func (tw *tamperWorld) enumerate(fn func(k int, c tcase) bool) (bound string) {
 			}
 		}
 	}
-	if vk.Thorough() {
+	if vk.Thorough() && tw.family == "tamper" {
 		// every other byte value at every position of the small plaintext's ciphertext and meta blob
 		for t := 0; t < nt; t++ {
 			if tw.targets[t].Plain != 0 {
@@ -469,11 +502,18 @@ func (tw *tamperWorld) enumerate(fn func(k int, c tcase) bool) (bound string) {
 		}
 		notes = append(notes, "every byte value at every position of the ciphertext and the meta blob of plaintext 'small'")
 	}
+	modesText := "{live instance, restart with wiped metaIndex}"
+	if len(tw.modes) == 1 {
+		modesText = "{" + tw.modes[0] + " with wiped metaIndex} (the live instance never reads meta blobs)"
+	}
 	var sizes []string
 	for _, t := range tw.targets {
 		sizes = append(sizes, fmt.Sprintf("%s(%s)=%dB", t.Role, tw.plain[t.Plain].Name, len(t.Data)))
 	}
-	bound = fmt.Sprintf("stored blobs %s; per blob: every byte position x 8 single-bit flips, every truncation length, 20 extensions by 1-2 bytes + 4 one-byte prefixes, deletion; every ordered content-for-name swap and every exchange over all %d blobs of both stores; each under {live instance, restart with wiped metaIndex}", strings.Join(sizes, " "), nt)
+	bound = fmt.Sprintf("stored blobs %s; per blob: every byte position x 8 single-bit flips, every truncation length, 20 extensions by 1-2 bytes + 4 one-byte prefixes, deletion; every ordered content-for-name swap and every exchange over all %d blobs of both stores; each under %s", strings.Join(sizes, " "), nt, modesText)
+	if tw.family == "tamper-packed" {
+		bound = fmt.Sprintf("world: %d plaintexts stored, their %d small meta blobs compacted into ONE packed meta blob; ", len(tw.plain), len(tw.plain)) + bound + "; the cipher blob takes part only as swap partner; after a successful restart all plaintexts are fetched"
+	}
 	if len(notes) > 0 {
 		bound += "; EXCEPT/PLUS: " + strings.Join(notes, "; ")
 	}
@@ -502,6 +542,9 @@ func confirmCase(tw *tamperWorld, c tcase, sig string) bool {
 func runTamperFamily(res *vk.Result, tw *tamperWorld, scName string, deadline time.Time) {
 	sc := res.Scenario(scName)
 	defer tw.w.close()
+	if tw.baseLeak != nil {
+		res.Violate(sc, "C11|"+tw.family+"|build|leak-"+tw.baseLeak.class(), "after storing the plaintexts, before any tampering: "+tw.baseLeak.String(), map[string]any{"family": tw.family, "kind": "none", "mode": "live"})
+	}
 	var total, mine int
 	cut := false
 	bound := tw.enumerate(func(k int, c tcase) bool {
@@ -530,6 +573,7 @@ func runTamperFamily(res *vk.Result, tw *tamperWorld, scName string, deadline ti
 			return true
 		}
 		sc.Outcome(r.Outcome)
+		dumpOutcome(scName, r.Outcome)
 		if mine <= 2 || (c.Kind == "flip" && c.Pos == 100 && c.Bit == 0) {
 			sc.Sample(map[string]any{"case": tw.describe(c), "outcome": r.Outcome})
 		}
@@ -541,5 +585,6 @@ func runTamperFamily(res *vk.Result, tw *tamperWorld, scName string, deadline ti
 		sc.Exhaustive = false
 		sc.Note = fmt.Sprintf("deadline reached after %d of this shard's cases (enumeration order: swaps, deletions, extensions, truncations, bit flips)", mine)
 	}
-	sc.Note += fmt.Sprintf(" leak scan: %d tampered contents, %d bytes scanned by this shard.", tw.scan.Blobs, tw.scan.Bytes)
+	sc.Note += " Every tampered content is leak-scanned before it is observed."
+	fmt.Fprintf(os.Stderr, "c11: %s leak scan of this shard: %d tampered contents, %d bytes\n", scName, tw.scan.Blobs, tw.scan.Bytes)
 }
